@@ -9,7 +9,7 @@ from .. import strategies as S
 PROPERTY = "C15"
 LEVEL = "exploration"
 RULE = ("Generated histories (op lists: step*n, add inside the box, unsorted removal between steps and from inside the "
-        "additional_forces / post_timestep_modifications callbacks, explicit tree update, restart from sim.copy() / pickle / "
+        "additional_forces / post_timestep_modifications callbacks, explicit tree update, move_to_com, restart from sim.copy() / pickle / "
         "file at any point with callbacks re-attached) of 1-60 "
         "free-streaming particles (leapfrog; gravity none or tree with G=0 so that the motion is exactly predictable; "
         "collisions none / tree / direct with the merge resolver) with |v dt| up to 3.5 root boxes per step, box sizes "
@@ -36,7 +36,7 @@ ASSUMPTIONS = [
     "image of a particle in shear-periodic boxes: (x - n Lx, y + 3/2 n OMEGA Lx t mod Ly, vy + 3/2 n OMEGA Lx) "
     "(docs/boundaryconditions.md, Rein & Liu 2012)",
 ]
-CLASSES = ["boundary_hist/restore/copy", "boundary_hist/restore/pickle", "boundary_hist/restore/file",
+CLASSES = ["boundary_hist/move_to_com", "boundary_hist/move_to_com_crossed_face", "boundary_hist/restore/copy", "boundary_hist/restore/pickle", "boundary_hist/restore/file",
            "boundary_hist/restore_with_pending_removal", "boundary_hist/removed_in_callback", "boundary_hist/collision_search_walks", "boundary_hist/collision/tree", "boundary_hist/collision/linetree",
            "boundary_hist/boundary/periodic", "boundary_hist/boundary/shear", "boundary_hist/boundary/open",
            "boundary_hist/tree/gravity", "boundary_hist/tree/collision", "boundary_hist/tree/none",
@@ -156,11 +156,19 @@ def history(draw, border=False):
             pos_ = draw(st.integers(0, len(parts)))
             parts[pos_:pos_] = two
     cfg["nghost"] = nghost
+    if draw(st.integers(0, 2)) == 0 and parts:
+        # an off-centre heavy particle: a shift to the centre-of-mass frame then pushes the others across box faces
+        hv = parts[draw(st.integers(0, len(parts) - 1))]
+        hv["m"] = 100.0
+        for j, ax in enumerate("xyz"):
+            if draw(st.booleans()):
+                hv[ax] = draw(st.sampled_from([-1.0, 1.0])) * draw(S.floats(0.25, 0.47)) * L[j]
     ops = []
     nops = draw(st.integers(2, 10))
     h = 1000
     for _ in range(nops):
-        kind = draw(st.sampled_from(["step", "step", "step", "add", "remove", "remove_cb", "walk", "restore"]))
+        kind = draw(st.sampled_from(["step", "step", "step", "add", "remove", "remove_cb", "walk", "restore",
+                                     "move_to_com"]))
         if kind == "step":
             ops.append(["step", draw(st.sampled_from([1, 1, 2, 3, 7])), draw(st.booleans())])
             if collision != "none" and draw(st.integers(0, 3)) == 0:    # a restart directly after a step with mergers
@@ -175,6 +183,8 @@ def history(draw, border=False):
                 ops.append(["restore", draw(st.sampled_from(RESTORES))])
         elif kind == "restore":
             ops.append(["restore", draw(st.sampled_from(RESTORES))])
+        elif kind == "move_to_com":
+            ops.append(["move_to_com"])     # user-level frame shift between steps
         elif kind == "remove_cb":
             # unsorted removal issued from inside a callback during the next step: still pending when the collision
             # search runs ("forces" = additional_forces, mid-step; "post" = post_timestep_modifications)
@@ -451,6 +461,83 @@ def check_step(s0, s1, t1, cfg, tree_in_use, R, ctx, user_removed):
     if multi:
         ctx.cls("multi_box_step")
     return crossed_root or crossed_box, bool(gone or stamped)
+
+
+def check_move_to_com(s0, s1, t, cfg, R, ctx):
+    """sim.move_to_com() between steps: every unwrapped coordinate is shifted by the centre of mass of the state before
+    (computed here in longdouble), velocities by the centre-of-mass velocity; the boundary condition then maps the
+    result back into the box by whole box lengths (shear: plus the image's offsets at time t); open: exactly the
+    particles the shift pushed out are removed.  Tolerance 64*(N+2)*eps*(largest coordinate/velocity magnitude + n L):
+    the library accumulates the centre of mass particle by particle in double."""
+    import numpy as np
+    LD = R.LD
+    L = cfg["L"]
+    b = cfg["boundary"]
+    n0 = len(s0)
+    m = s0["m"].astype(LD)
+    M = m.sum()
+    X0, V0 = R.pos(s0).astype(LD), R.vel(s0).astype(LD)
+    com = (m[:, None] * X0).sum(axis=0) / M
+    vcom = (m[:, None] * V0).sum(axis=0) / M
+    U, W = X0 - com[None, :], V0 - vcom[None, :]
+    kx = 64 * R.EPS * (n0 + 2) * (np.abs(X0).max(axis=0) + np.abs(com))
+    kv = 64 * R.EPS * (n0 + 2) * (np.abs(V0).max(axis=0) + np.abs(vcom)) + 1e-300
+    o0 = {int(h): i for i, h in enumerate(s0["hash"])}
+    o1 = {int(h): i for i, h in enumerate(s1["hash"])}
+    half = np.array(L) / 2
+    if b in ("periodic", "shear"):
+        if set(o0) != set(o1) or len(o1) != len(s1):
+            raise Violation("move_to_com under a %s boundary changed the set of particles: lost %s (N %d -> %d)"
+                            % (b, sorted(set(o0) - set(o1))[:5], n0, len(s1)))
+    else:
+        for h, i in o0.items():
+            out = (np.abs(U[i]) > half + kx).any()
+            inn = (np.abs(U[i]) < half - kx).all()
+            if out and h in o1:
+                raise Violation("move_to_com, open boundary: particle hash %d was shifted out of the box but kept" % h)
+            if inn and h not in o1:
+                raise Violation("move_to_com, open boundary: particle hash %d is inside the box after the shift but was removed" % h)
+        if set(o1) - set(o0):
+            raise Violation("move_to_com created particles")
+    X1, V1 = R.pos(s1), R.vel(s1)
+    if b in ("periodic", "shear") and len(s1) and (np.abs(X1) > half[None, :]).any():
+        k = int(np.nonzero((np.abs(X1) > half[None, :]).any(axis=1))[0][0])
+        raise Violation("%s boundary: particle hash %d is outside the box after move_to_com: %r"
+                        % (b, int(s1["hash"][k]), X1[k].tolist()))
+    crossed = False
+    for h, i1 in o1.items():
+        i0 = o0[h]
+        x1, v1 = X1[i1].astype(LD), V1[i1].astype(LD)
+        u, w = U[i0], W[i0]
+        if b == "open":
+            n = [0, 0, 0]
+            res = u - x1
+            dv = w - v1
+            tol = kx
+        else:
+            n = [int(np.rint((u[k] - x1[k]) / LD(L[k]))) for k in range(3)]
+            sh = LD(0)
+            ey = u[1] - x1[1]
+            if b == "shear":
+                sh = LD(1.5) * n[0] * LD(cfg["omega"]) * LD(L[0])
+                ey = u[1] + sh * LD(t) - x1[1]
+                n[1] = int(np.rint(ey / LD(L[1])))
+            res = np.array([u[0] - n[0] * LD(L[0]) - x1[0], ey - n[1] * LD(L[1]), u[2] - n[2] * LD(L[2]) - x1[2]])
+            dv = np.array([w[0] - v1[0], w[1] + sh - v1[1], w[2] - v1[2]])
+            tol = kx + 64 * R.EPS * np.array([abs(n[0]) * L[0], abs(n[1]) * L[1] + abs(sh * LD(t)) + L[1], abs(n[2]) * L[2]], dtype=LD)
+            if any(n):
+                crossed = True
+        ctx.stat_max("move_to_com_residual/tol", float(np.max(np.abs(res) / tol)))
+        if (np.abs(res) > tol).any():
+            raise Violation("move_to_com: coordinates are not (state before - centre of mass) modulo whole box lengths (hash %d)" % h,
+                            residual=[float(a) for a in res], tol=[float(a) for a in tol], n=n)
+        if (np.abs(dv) > kv + 16 * R.EPS * abs(sh if b == "shear" else 0)).any():
+            raise Violation("move_to_com: velocities are not (state before - centre-of-mass velocity) (hash %d)" % h,
+                            dv=[float(a) for a in dv])
+    ctx.cls("move_to_com")
+    if crossed:
+        ctx.cls("move_to_com_crossed_face")
+    return crossed
 
 
 def force_check(sim, cfg, R, ctx):
@@ -804,6 +891,28 @@ def _run_history(case, ctx):
             # every other particle: fixed in /repo, regression case corpus/C15/fixed-direct-search-flagged-particle.json)
             del pending[:]
             pending.append([op[1], op[2]])
+        elif kind == "move_to_com":
+            raw = R.snapshot(sim)
+            if np.isnan(raw["y"]).any() or len(raw) == 0 or float(raw["m"].sum()) <= 0.0:
+                continue        # a pending flag-only removal (NaN would enter the centre of mass) or no mass
+            try:
+                sim.move_to_com()
+                sim.process_messages()      # "no queued error"
+            except RuntimeError as e:
+                if "same coordinates" in str(e) and coincidence_explains(None, R.snapshot(sim), cfg, R):
+                    raise SkipCase("two particles at exactly the same point")
+                raise Violation("move_to_com reported an error: %s" % e, N_before=len(raw), N_after=sim.N)
+            after = alive()
+            if check_move_to_com(raw, after, sim.t, cfg, R, ctx):
+                crossed = True
+            if tree_cfg and T.has_tree(sim):
+                # move_to_com itself rebuilds the tree (documented in its source): walk it now
+                try:
+                    T.check(sim, box, gravity_data=False)
+                except T.Problem as e:
+                    raise Violation("tree invariant broken after move_to_com: %s" % e)
+            if event_at is None:
+                event_at = steps_done
         elif kind == "walk":
             explicit_walk("walk op")
     if walks[0]:
